@@ -3,7 +3,10 @@
 package sx
 
 import (
+	"github.com/alibaba/sentinel-golang/core/stat"
 	"github.com/alibaba/sentinel-golang/logging"
+
+	"verif/vk"
 )
 
 type nullLogger struct{}
@@ -19,4 +22,10 @@ func (nullLogger) ErrorEnabled() bool                  { return false }
 
 // Quiet silences the library's console logger (it logs every recovered panic
 // and every rule load, which would swamp the monitor's own output).
-func Quiet() { _ = logging.ResetGlobalLogger(nullLogger{}) }
+func Quiet() {
+	_ = logging.ResetGlobalLogger(nullLogger{})
+	// every case works on resources with fresh names and clears its rules when it ends: between cases the statistic
+	// nodes of finished cases can go (a rule binds to the node of its resource when it is loaded, so this must only
+	// happen while no rule of a live case exists - which is what "start of a case" means in every monitor)
+	vk.CaseHook = stat.ResetResourceNodeMap
+}
